@@ -16,7 +16,7 @@ def main():
     d = os.path.join(ROOT, "seeded", name)
     os.makedirs(d, exist_ok=True)
     pd = os.path.join(d, "patch.diff")
-    if os.path.isdir(wt):
+    if os.path.isdir(wt) and os.path.exists(os.path.join(wt, ".git")):
         diff = sh(["git", "-C", wt, "diff", "--", "src"]).stdout
         open(pd, "w").write(diff)
         for f, t in (("tests/seed_demo.rs", "demonstration.rs"), ("SEED_REPORT.md", "demonstration.md")):
